@@ -153,19 +153,19 @@ def dir_grid(ctx, kind, nd):
 
 def shim_modules(ctx, extra=()):
     """rebind the module global `np` of the analysed modules to the lifting shim (sym mode only)"""
-    if ctx.mode != "sym":
-        return
     import importlib
-    from symx.shim import SymNP
+    from symx.shim import SymNP, ConcNP
     names = ["ocean_science_utilities.wavespectra.spectrum", "ocean_science_utilities.tools.math",
              "ocean_science_utilities.tools.grid", "ocean_science_utilities.wavespectra.operations",
              "ocean_science_utilities.interpolate.general", "ocean_science_utilities.interpolate.nd_interp",
              "ocean_science_utilities.interpolate.dataset"] + list(extra)
-    snp = SymNP()
+    snp = SymNP() if ctx.mode == "sym" else ConcNP()
     for n in names:
         m = importlib.import_module(n)
         if hasattr(m, "np"):
             ctx.patch(m, "np", snp)
+    if ctx.mode != "sym":
+        return
     _lift_xarray(ctx)
 
 
@@ -187,3 +187,26 @@ def _lift_xarray(ctx):
 
     for name in ("fillna", "where", "integrate", "sum", "mean"):
         ctx.patch(xarray.DataArray, name, lifted(getattr(xarray.DataArray, name)))
+
+
+def float_grid(kind, nf):
+    """concrete float64 frequency coordinate (dyadic: exact)"""
+    return np.array([float(x) for x in GRIDS[kind][:nf]])
+
+
+def band_positions(f):
+    """all placements of a band limit relative to a concrete grid: below, on each node, between nodes, above"""
+    f = [float(x) for x in f]
+    pos = [f[0] - 0.015625]
+    for i, x in enumerate(f):
+        pos.append(x)
+        if i + 1 < len(f):
+            pos.append((x + f[i + 1]) / 2)
+    pos.append(f[-1] + 0.015625)
+    return pos
+
+
+def band_pairs(f):
+    """every (fmin,fmax) order type on a concrete grid, including ties with nodes, empty and single-point bands"""
+    P = band_positions(f)
+    return [(a, b) for a in P for b in P + [np.inf]]
